@@ -209,6 +209,22 @@ func auditNode(e *sim.Env, inv string, n *netNode, tree *gen.Tree) *gen.Node {
 	if !bytes.Equal(gen.StateBytes(ts), gen.StateBytes(tipNode.L.State)) {
 		e.Violationf(inv+".node-valid", "state-mismatch", "%s: tip state differs from independent replay at %s: %s", n.name, tipNode.Describe(), stateDiff(ts, tipNode.L.State))
 	}
+	if n.cpHeight > 0 {
+		// the history sample a node offers its peers must reach down to the
+		// lowest block it has: any fork point at or above the checkpoint has to
+		// be findable from it
+		if hist, err := n.s.cm.History(); err == nil {
+			if lowest, ok := n.s.cm.BestIndex(n.cpHeight); ok {
+				found := false
+				for _, id := range hist {
+					found = found || id == lowest.ID
+				}
+				if !found {
+					e.Violationf(inv+".checkpoint-history", "lowest-block-missing", "%s (started from a checkpoint at height %d, tip %v): History() does not contain its lowest block %v, so a peer on a branch that forks there finds no common block", n.name, n.cpHeight, ts.Index, lowest)
+				}
+			}
+		}
+	}
 	path := tipNode.PathFromGenesis()
 	for h, x := range path {
 		if uint64(h) < n.cpHeight {
